@@ -192,7 +192,7 @@ func runRepoCase(spec repoSpec, rng *rand.Rand, res *worker.Result) {
 			if !a.Target {
 				return a.out.Kind == "ok"
 			}
-			if a.out.Kind == "401basic" || a.out.Kind == "401bearer" {
+			if strings.HasPrefix(a.out.Kind, "401") {
 				return true
 			}
 			// an accepted upload session is followed by the PUT
